@@ -338,7 +338,7 @@ fire('c04-no-lower-right', 'C04',
        "return match.lower() in [x for x in creds['roles']]")], 'C04.MEMBER')
 fire('c04-not-in', 'C04',
      [(C, "return match.lower() in [x.lower() for x in creds['roles']]",
-       "return match.lower() not in [x.lower() for x in creds['roles']]")], 'C04.MEMBER')
+       "return match.lower() not in [x.lower() for x in creds['roles']]")], 'C04.ELSE-FALSE')
 fire('c04-handler-true', 'C04',
      [(C, "            # present in Target return false\n            return False\n        if 'roles' in creds:",
        "            # present in Target return false\n            return True\n        if 'roles' in creds:")], 'C04.SUBST')
